@@ -1374,6 +1374,17 @@ def fixed_cases():
     out.append(("test_source_reuse_shape", l3, {"sources": ["s0"], "apps": [
         {"out": "t0", "term": ap("j", ("anon", "T0"), I(0, "T0")), "ins": ["s0"]},
         {"out": "t1", "term": ap("j", I(0, "T0"), I(1, "T1")), "ins": ["t0", "s0"]}]}))
+    # the witnesses of the two KeyErrors repaired by 5e78fd2 / 1f88f3e (found while proving
+    # C12_handon_plugged): a tool that hands one input on and declares another it does not mention
+    l4 = Lang({"T0": None}, False, [
+        mono("f", ["T0"], "T0"), mono("g", ["T0"], "T0"), mono("h", ["T0", "T0"], "T0")], [])
+    for name, third in (("handon_unmentioned_input", ["t0", "t1"]),
+                        ("handon_source_unmentioned_input", ["s0", "t1"])):
+        out.append((name, l4, {"sources": ["s0"], "apps": [
+            {"out": "t0", "term": ap("f", I(0)), "ins": ["s0"]},
+            {"out": "t1", "term": ap("g", I(0)), "ins": ["s0"]},
+            {"out": "t2", "term": I(0), "ins": third},
+            {"out": "t3", "term": ap("h", I(0), I(1)), "ins": ["t0", "t2"]}]}))
     return out
 
 
@@ -1496,7 +1507,10 @@ def check_case(rep: C.Report, rng, case: Case, tier, acc: Counter, idx: int, all
         # Workflow.source_types departs from its specification (no type for a source with a use
         # that is not annotated, else the least annotated type), the inlined expression with the
         # specified source types decides what the workflow must give
-        if pt and case.dom and spec_st is not None and st_differs:
+        # a declared input that no expression mentions is a resource of the workflow (it gets its
+        # node and subgraph) but no part of the inlined expression: no inlined comparison then
+        inlinable = not unmentioned_inputs(wf)
+        if pt and case.dom and spec_st is not None and st_differs and inlinable:
             so_, text = inline_obs(lang, wf, True, override=spec_over, open_sources=spec_open)
             acc["source_spec_departures_checked"] += 1
             bad = None
@@ -1545,6 +1559,11 @@ def check_case(rep: C.Report, rng, case: Case, tier, acc: Counter, idx: int, all
                          "different graphs", result_listed=listing(base), result_other=listing(o)),
                     has_input=True, signature=sig)
         if not case.dom:
+            if case.dom2 and base.error is not None and not is_typing_error(base.error):
+                acc["unexpected_errors"] += 1
+                rep.violation(f"raised_{tag}_{idx}", case.payload(kind="oracle", passthrough=pt,
+                    what="add_workflow raised something other than a typing error on a well-formed "
+                         "workflow (a tool here is a bare source)", error=list(base.error)), has_input=True)
             if case.dom2 and base.error is None:
                 # bare-source tools: the property structurally (types: only through the model-free
                 # order/description comparisons above)
@@ -1563,7 +1582,7 @@ def check_case(rep: C.Report, rng, case: Case, tier, acc: Counter, idx: int, all
                 rep.violation(f"raised_{tag}_{idx}", case.payload(kind="oracle", passthrough=pt,
                     what="add_workflow raised something other than a typing error on a well-formed "
                          "workflow", error=list(base.error)), has_input=True)
-            elif pt:
+            elif pt and inlinable:
                 # ill-typed as a workflow: then the inlined expression must be ill-typed too
                 io, text = inline_obs(lang, wf, True)
                 acc["inline_compared_failures"] += 1
@@ -1585,7 +1604,9 @@ def check_case(rep: C.Report, rng, case: Case, tier, acc: Counter, idx: int, all
                      "the tool trees plugged together", impl=listing(base), expected=listing(sp)),
                 has_input=True)
         # --- (b) typed: against the inlined expression
-        if pt:
+        if pt and not inlinable:
+            acc["inline_skipped_unmentioned_input"] += 1
+        elif pt:
             io, text = inline_obs(lang, wf, True)
             shared = case.shape["shared_intermediates"] > 0
             if io.error is not None:
@@ -1624,6 +1645,26 @@ def check_case(rep: C.Report, rng, case: Case, tier, acc: Counter, idx: int, all
                         expected=dict(exp), got=dict(got), impl=listing(base)), has_input=True)
 
 
+def unmentioned_inputs(wf) -> list:
+    """(tool, position) of declared inputs the tool's expression does not mention"""
+    return [(a["out"], k) for a in wf["apps"] for k in range(len(a["ins"]))
+            if k not in set(slots_of(a["term"]))]
+
+
+def all_reached(wf) -> bool:
+    prod = producers(wf)
+    tg = targets_of(wf)
+    seen, todo = set(), list(tg)
+    while todo:
+        r = todo.pop()
+        if r in seen:
+            continue
+        seen.add(r)
+        if r in prod:
+            todo += prod[r]["ins"]
+    return seen >= set(wf["sources"]) | set(prod)
+
+
 def correspondence(rep: C.Report, cases, tag, acc: Counter):
     jobs = []
     for ci, case in enumerate(cases):
@@ -1642,7 +1683,9 @@ def correspondence(rep: C.Report, cases, tag, acc: Counter):
         if bool(dom) != case.dom:
             rep.violation(f"domain_{tag}_{ci}", case.payload(kind="harness",
                 what="in_domain (harness) and wf_okb (Coq) disagree"), has_input=False)
-        if case.dom and not same:
+        # (node numbers are compared literally: meaningful only when the repaired code's extra pass
+        # over all resources visits nothing new, i.e. every resource is reached from the target)
+        if case.dom and not same and all_reached(case.wf):
             rep.violation(f"wiring_{tag}_{ci}", case.payload(kind="correspondence",
                 what="the models of the pinned and of the repaired add_expr wiring differ on a workflow "
                      "in the theorem's domain"), has_input=False)
@@ -1828,6 +1871,7 @@ def main(tier: str, seed: int, replay: str | None = None) -> int:
         rep.violation("proof_stage_build", {"kind": "proof", "what": "C12 theories do not compile",
             "log_tail": log}, has_input=False)
     rep.proof_stage()
+    rep.proof_stage("C12_handon")   # C12_plugged extended to tools that hand an input on (`1`, `1: T`)
     rng = random.Random(seed)
     acc = Counter()
     shapes = Counter()
